@@ -36,8 +36,16 @@ type verifC10Result struct {
 
 // verifRun runs the context; with VERIF_DEBUGSIGNAL=1 it plays the part of debugger.Run answering every
 // prompt with "continue": a debugger signal returned by Run resumes execution (debugger/run.go).
-func verifRun(ctx *bytecode.Context) error {
-	err := ctx.Run()
+func verifRun(ctx *bytecode.Context) (err error) {
+	// a Go panic inside the VM is an outcome of that program (reported with the program as replay), not a
+	// crash of the harness
+	defer func() {
+		if r := recover(); r != nil {
+			err = errors.Message("GO-RUNTIME-PANIC in the VM")
+		}
+	}()
+
+	err = ctx.Run()
 
 	for n := 0; n < 100000 && errors.Equals(err, errors.ErrSignalDebugger); n++ {
 		err = ctx.Resume()
